@@ -281,8 +281,14 @@ def Circ.appendCircuit (c : Circ) (sub : Circ) (location : List Nat) : Circ × E
       let (c', r) := acc.1.append (o.mapLoc location)
       (c', r.map (fun _ => ()))) (c, .ok ())
 
-def Circ.insertCircuit (c : Circ) (ci : Int) (sub : Circ) (location : List Nat) :
+/-- a negative index is resolved once, against the cycle count before the insertion -/
+def Circ.resolveCycle (c : Circ) (ci0 : Int) : Int :=
+  if ci0 < -(c.numCycles : Int) then 0
+  else if ci0 < 0 then (c.numCycles : Int) + ci0 else ci0
+
+def Circ.insertCircuit (c : Circ) (ci0 : Int) (sub : Circ) (location : List Nat) :
     Circ × Except Err Unit :=
+  let ci : Int := c.resolveCycle ci0
   if sub.numQudits != location.length then (c, .error .value)
   else if ci ≥ (c.numCycles : Int) then c.appendCircuit sub location   -- past the end: append forwards
   else
